@@ -664,6 +664,10 @@ fn build_write_script(rng: &mut Rng, w: u64) -> Vec<WStep> {
     s.push(WStep::WriteVectored { slot: 0, len: 300 });
     s.push(WStep::FlushHandle { slot: 0 });
     s.push(WStep::SetLen { slot: 1, n: *rng.pick(&[100u64, 4096, 6000]) });
+    if w % 3 == 1 {
+        // (a flush right after the resize: nothing else touches the handle in between)
+        s.push(WStep::FlushHandle { slot: 1 });
+    }
     s.push(WStep::Write { slot: 1, len: 200 });
     s.push(WStep::FlushHandle { slot: 1 });
     s.push(WStep::CloseHandle { slot: 0 });
